@@ -412,7 +412,11 @@ class UniversalPrecondition(Precondition):
         :param should_simplify: whether to print the quantified conditions in a simplified format.
         :param decimal_digits: the number of decimal digits to keep.
         """
-        if len(self.operands) == 0:
+        if (
+            len(self.operands) == 0
+            and len(self.equality_preconditions) == 0
+            and len(self.inequality_preconditions) == 0
+        ):
             return ""
 
         internal_condition_string = super()._print_self(should_simplify, decimal_digits)
